@@ -339,13 +339,14 @@ type OpRow struct {
 
 // Store is the projection of the database the properties speak about.
 type Store struct {
-	Ops       map[string][]OpRow // by duid, in storage order
-	Datatypes []DatatypeRow
-	Snapshots []SnapRow
-	Clients   []string
-	Cols      map[string]int32
-	UserDocs  map[string][]bson.D // by user collection
-	Raw       map[string][]bson.D
+	Ops        map[string][]OpRow // by duid, in storage order
+	Datatypes  []DatatypeRow
+	Snapshots  []SnapRow
+	Clients    []string
+	ClientCols map[string]int32 // collection number each registered client belongs to
+	Cols       map[string]int32
+	UserDocs   map[string][]bson.D // by user collection
+	Raw        map[string][]bson.D
 }
 
 type DatatypeRow struct {
@@ -400,7 +401,7 @@ func asD(v interface{}) bson.D {
 // ReadStore decodes the fake database.
 func (s *Stack) ReadStore() *Store {
 	raw := s.FM.DumpAll(DB)
-	st := &Store{Ops: map[string][]OpRow{}, Cols: map[string]int32{}, UserDocs: map[string][]bson.D{}, Raw: raw}
+	st := &Store{Ops: map[string][]OpRow{}, Cols: map[string]int32{}, ClientCols: map[string]int32{}, UserDocs: map[string][]bson.D{}, Raw: raw}
 	for name, docs := range raw {
 		switch name {
 		case schema.CollectionNameOperations:
@@ -442,6 +443,7 @@ func (s *Stack) ReadStore() *Store {
 		case schema.CollectionNameClients:
 			for _, d := range docs {
 				st.Clients = append(st.Clients, fmt.Sprint(get(d, "_id")))
+				st.ClientCols[fmt.Sprint(get(d, "_id"))] = int32(num(get(d, "colNum")))
 			}
 		case schema.CollectionNameCollections:
 			for _, d := range docs {
